@@ -77,7 +77,7 @@ def run(ctx):
     ctx.log("inputs from TLC: " + ", ".join("%s=%d" % (k, len(by[k])) for k in need))
 
     rng = ctx.rng
-    K = ctx.pick(8, 40)
+    K = ctx.pick(8, 24)
 
     def pick_reqs(n):
         idx = list(range(n))
@@ -120,7 +120,7 @@ def run(ctx):
         dup = dup[:1] + [dup[1 + i] for i in sorted(rng.sample(range(len(dup) - 1), ndup))]
 
     # seeded deeper random inputs over the TLC-exported vocabulary
-    nr = ctx.pick(150, 3000)
+    nr = ctx.pick(150, 1500)
     pl, ql = by["pleaf"], by["qleaf"]
     bodies = [p["allow"][0] for p in by["rule"] if not p["deny"]]
     names = [[114], [115], [116]]
